@@ -22,7 +22,7 @@ CONSTANTS
   MaxReads = 2
   MaxSizes = 0
   MaxOps = 3
-INVARIANTS ValuesContract SizeAccounting CountersNonNegative EntriesTyped WriteOutcome LimitAsObserved
+INVARIANTS ValuesContract SizeAccounting PresenceOK CountersNonNegative EntriesTyped WriteOutcome LimitAsObserved
 PROPERTIES RejectedStoresNothing TypeConflictOneKey WriteOutcomeStep LimitStep
 VIEW ViewGen
 CHECK_DEADLOCK FALSE
